@@ -39,29 +39,29 @@ Proof.
   rewrite (strip_filter_top (fun k => negb (String.eqb k "_sd_alg"))). reflexivity.
 Qed.
 
-Lemma restore_and_strip_sound claims' ps a alg L :
-  jget "_sd_alg" (blind t) = JStr a -> parse_halg a = Some alg -> o_hash O alg = H ->
+Lemma restore_and_strip_sound claims' ps alg L :
+  declared_halg (blind t) = Some alg -> o_hash O alg = H ->
   (forall s, In s L -> In (H s) (alldigs t) -> In (H s) (hdigs t)) ->
   restore_and_strip O (blind t) L = Val (claims', ps) ->
   claims' = drop_alg (proj (ownS H L) t).
 Proof.
-  intros Ha Hh Ho Hdecoy Hr. unfold restore_and_strip in Hr. rewrite Ha in Hr. cbn [jstr_or_empty] in Hr. rewrite Hh, Ho in Hr.
+  intros Ha Ho Hdecoy Hr. unfold restore_and_strip in Hr. rewrite Ha, Ho in Hr.
   destruct (restore_any_spec H enc (o_dec O) show_nat hash_inj dec_enc t Hwf Hnd Hndh Hheight L Hdecoy) as [He|[ps' Hok]].
   - rewrite He in Hr. discriminate.
   - rewrite Hok in Hr. cbn [of_res obind fst snd] in Hr. injection Hr as <- _. apply remove_digests_view.
 Qed.
 
 (* Verifier::verify: any presentation string, with or without KB-JWT, under any key-binding policy *)
-Theorem verifier_verify_sound token kbpol jwt L kb hdr0 hdr claims' a alg :
+Theorem verifier_verify_sound token kbpol jwt L kb hdr0 hdr claims' alg :
   sd_jwt_parts token = (jwt, L, kb) -> o_jwt O jwt = Val (hdr0, blind t) ->
-  jget "_sd_alg" (blind t) = JStr a -> parse_halg a = Some alg -> o_hash O alg = H ->
+  declared_halg (blind t) = Some alg -> o_hash O alg = H ->
   (forall s, In s L -> In (H s) (alldigs t) -> In (H s) (hdigs t)) ->
   verifier_verify O token kbpol = Val (hdr, claims') ->
   hdr = hdr0 /\ claims' = drop_alg (proj (ownS H L) t).
 Proof.
-  intros Hp Hj Ha Hh Ho Hdecoy Hv. unfold verifier_verify in Hv.
+  intros Hp Hj Ha Ho Hdecoy Hv. unfold verifier_verify in Hv.
   destruct (verifier_verify_raw O token kbpol) as [[[h c] ds]| |] eqn:Er; cbn [obind] in Hv; try discriminate.
-  apply verifier_verify_raw_iff in Er as (jwt' & kb' & a' & alg' & Hp' & Hj' & _).
+  apply verifier_verify_raw_iff in Er as (jwt' & kb' & alg' & Hp' & Hj' & _).
   rewrite Hp in Hp'. injection Hp' as <- <- <-. rewrite Hj in Hj'. injection Hj' as <- <-.
   destruct (restore_and_strip O (blind t) L) as [[c' ps]| |] eqn:Es; cbn [obind] in Hv; try discriminate.
   cbn [fst] in Hv. injection Hv as <- <-. split; [reflexivity|].
@@ -69,60 +69,60 @@ Proof.
 Qed.
 
 (* Holder::verify *)
-Theorem holder_verify_sound token jwt L kb hdr0 hdr claims' ps a alg :
+Theorem holder_verify_sound token jwt L kb hdr0 hdr claims' ps alg :
   sd_jwt_parts token = (jwt, L, kb) -> o_jwt O jwt = Val (hdr0, blind t) ->
-  jget "_sd_alg" (blind t) = JStr a -> parse_halg a = Some alg -> o_hash O alg = H ->
+  declared_halg (blind t) = Some alg -> o_hash O alg = H ->
   (forall s, In s L -> In (H s) (alldigs t) -> In (H s) (hdigs t)) ->
   holder_verify O token = Val (hdr, claims', ps) ->
   hdr = hdr0 /\ claims' = drop_alg (proj (ownS H L) t).
 Proof.
-  intros Hp Hj Ha Hh Ho Hdecoy Hv. unfold holder_verify, holder_verify_raw in Hv.
+  intros Hp Hj Ha Ho Hdecoy Hv. unfold holder_verify, holder_verify_raw in Hv.
   rewrite sd_jwt_parts_m_total, Hp in Hv. cbn [obind] in Hv. destruct kb as [k|]; [discriminate|].
-  rewrite Hj in Hv. cbn [obind] in Hv. rewrite Ha, Hh in Hv. cbn [obind] in Hv.
+  rewrite Hj in Hv. cbn [obind] in Hv. rewrite Ha in Hv. cbn [obind] in Hv.
   destruct (restore_and_strip O (blind t) L) as [[c' ps']| |] eqn:Es; cbn [obind] in Hv; try discriminate.
   cbn [fst snd] in Hv. injection Hv as <- <- <-. split; [reflexivity|].
   eapply restore_and_strip_sound; eauto.
 Qed.
 
 (* acceptance for well-formed lists (the completeness half, unbound tokens) *)
-Theorem verifier_verify_complete token kbpol jwt L ds hdr0 a alg :
+Theorem verifier_verify_complete token kbpol jwt L ds hdr0 alg :
   sd_jwt_parts token = (jwt, L, None) -> o_jwt O jwt = Val (hdr0, blind t) ->
-  jget "_sd_alg" (blind t) = JStr a -> parse_halg a = Some alg -> o_hash O alg = H ->
+  declared_halg (blind t) = Some alg -> o_hash O alg = H ->
   jget "cnf" (blind t) = JNull ->
   NoDup L -> (forall s, In s L -> In (H s) (alldigs t) -> In (H s) (hdigs t)) ->
   decode_all H (o_dec O) L = Ok ds ->
   verifier_verify O token kbpol = Val (hdr0, drop_alg (proj (ownS H L) t)).
 Proof.
-  intros Hp Hj Ha Hh Ho Hcnf HndL Hdecoy Hd. unfold verifier_verify.
+  intros Hp Hj Ha Ho Hcnf HndL Hdecoy Hd. unfold verifier_verify.
   assert (Hraw : verifier_verify_raw O token kbpol = Val (hdr0, blind t, L)).
-  { apply verifier_verify_raw_iff. exists jwt, None, a, alg. repeat split; try assumption.
+  { apply verifier_verify_raw_iff. exists jwt, None, alg. repeat split; try assumption.
     left. split; [unfold kb_required; rewrite Hcnf; reflexivity|reflexivity]. }
-  rewrite Hraw. cbn [obind]. unfold restore_and_strip. rewrite Ha. cbn [jstr_or_empty]. rewrite Hh, Ho.
+  rewrite Hraw. cbn [obind]. unfold restore_and_strip. rewrite Ha, Ho.
   destruct (restore_full_ok H enc (o_dec O) show_nat hash_inj dec_enc t Hwf Hnd Hndh Hheight L ds HndL Hdecoy Hd) as [ps Hok].
   rewrite Hok. cbn [of_res obind fst snd]. rewrite remove_digests_view. reflexivity.
 Qed.
 
 (* Holder::verify accepts duplicate-free decodable lists on any conformant token, bound or not, and reports
    each placed disclosure with the path of its node *)
-Theorem holder_verify_complete token jwt L ds hdr0 a alg :
+Theorem holder_verify_complete token jwt L ds hdr0 alg :
   sd_jwt_parts token = (jwt, L, None) -> o_jwt O jwt = Val (hdr0, blind t) ->
-  jget "_sd_alg" (blind t) = JStr a -> parse_halg a = Some alg -> o_hash O alg = H ->
+  declared_halg (blind t) = Some alg -> o_hash O alg = H ->
   NoDup L -> (forall s, In s L -> In (H s) (alldigs t) -> In (H s) (hdigs t)) ->
   decode_all H (o_dec O) L = Ok ds ->
   exists ps, holder_verify O token = Val (hdr0, drop_alg (proj (ownS H L) t), ps) /\
     Forall (fun pd : dpath => In (snd pd) ds /\ NodePath H enc show_nat (d_digest (snd pd)) t (fst pd)) ps.
 Proof.
-  intros Hp Hj Ha Hh Ho HndL Hdecoy Hd. unfold holder_verify, holder_verify_raw.
-  rewrite sd_jwt_parts_m_total, Hp. cbn [obind]. rewrite Hj. cbn [obind]. rewrite Ha, Hh. cbn [obind].
-  unfold restore_and_strip. rewrite Ha. cbn [jstr_or_empty]. rewrite Hh, Ho.
+  intros Hp Hj Ha Ho HndL Hdecoy Hd. unfold holder_verify, holder_verify_raw.
+  rewrite sd_jwt_parts_m_total, Hp. cbn [obind]. rewrite Hj. cbn [obind]. rewrite Ha. cbn [obind].
+  unfold restore_and_strip. rewrite Ha, Ho.
   destruct (restore_full_ok_paths H enc (o_dec O) show_nat hash_inj dec_enc t Hwf Hnd Hndh Hheight L ds HndL Hdecoy Hd) as (ps & Hok & Hpl & _).
   rewrite Hok. cbn [of_res obind fst snd]. rewrite remove_digests_view. exists ps. split; [reflexivity|assumption].
 Qed.
 End C03.
 
 (* the digest algorithm used for every disclosure is the one named by the signed _sd_alg claim *)
-Theorem restore_and_strip_alg O claims ds a alg :
-  jget "_sd_alg" claims = JStr a -> parse_halg a = Some alg ->
+Theorem restore_and_strip_alg O claims ds alg :
+  declared_halg claims = Some alg ->
   restore_and_strip O claims ds =
   obind (of_res (restore_disclosures (o_hash O alg) (o_dec O) show_nat claims ds)) (fun cp => Val (remove_digests (fst cp), snd cp)).
-Proof. intros Ha Hp. unfold restore_and_strip. rewrite Ha. cbn [jstr_or_empty]. rewrite Hp. reflexivity. Qed.
+Proof. intros Ha. unfold restore_and_strip. rewrite Ha. reflexivity. Qed.
